@@ -131,7 +131,14 @@ def c17(prop, tier, seed, known):
                 for o in keep:
                     f.write(o + "\n")
             violations.append((None, _special_violation(prop, "std.digest", opk, msg, path, universe)))
-    cov = dict(extra_evaluations=int(stats.get("evaluations", 0)),
+    # the declared noexcept contract must not depend on the standard beyond what the README
+    # documents (availability of is_always_equal / is_nothrow_swappable): the table transcribes
+    # the documented condition per standard, so any mismatch under any -std is a divergence
+    tv, tc = run_aux(prop, "noexcept_table", ["11", "14", "17", "20"] + ([] if q else ["2b"]), "MISMATCH",
+                     "std.noexcept_contract", "std.noexcept_contract_compile", "ROWS")
+    violations += tv
+    cov = dict(extra_evaluations=int(stats.get("evaluations", 0)) + tc["cases"],
+               noexcept_table=tc,
                extra_distinct=len(sigs),
                extra_samples=samples,
                builds=C17_FLAVOURS,
@@ -292,7 +299,8 @@ def aux_prebuild():
     """setup: compile the auxiliary programs of the quick tier."""
     from concurrent.futures import ThreadPoolExecutor
     jobs = [(n, std) for n in ("conv_grid", "archetypes", "noexcept_table") for std in ("11", "17", "20")]
-    jobs += [("max_grid", "20"), ("cmp_grid", "17"), ("cmp_grid", "20"), ("real_types", "11"), ("real_types", "20")]
+    jobs += [("max_grid", "20"), ("cmp_grid", "17"), ("cmp_grid", "20"), ("real_types", "11"), ("real_types", "20"),
+             ("noexcept_table", "14")]
     with ThreadPoolExecutor(max_workers=9) as ex:
         list(ex.map(lambda j: _aux_build_run(j[0], j[1]), jobs))
 
